@@ -52,6 +52,7 @@ def multi_cases():
   for a in MULTI_OPS:
     for b in MULTI_OPS:
       yield {'multi': [a, b]}
+      yield {'multi': [a, b], 'sigdefs': 'rev'}
 
 
 def run_multi(case, res):
@@ -62,7 +63,10 @@ def run_multi(case, res):
     ar = irm.arity(t, v)
     subs.append({'ops': [irm.op(t, v, [0] * ar)], 'exports': [],
                  'prefix': ['', 'b_'][i], 'key': ['serving_default', 'sig1'][i]})
-  built = irm.build({'subgraphs': subs, 'pool': env.seed() % 4})
+  mir = {'subgraphs': subs, 'pool': env.seed() % 4}
+  if case.get('sigdefs'):
+    mir['sigdefs'] = case['sigdefs']
+  built = irm.build(mir)
   if built is None:
     return
   res['states'] += 1
@@ -159,6 +163,11 @@ def plan(tier, seed):
 def recipes(built):
   out = [('R2:SRQ8a', [md.rule('.*', '*', 'SRQ8a')]),
          ('R2:SRQ16', [md.rule('.*', '*', 'SRQ16')])]
+  # model I/O quantized while every operator stays float: the boundary tensors
+  # are then recorded by the virtual INPUT/OUTPUT operators alone
+  out.append(('R5:INPUT', [md.rule('.*', 'INPUT', 'SRQ8a')]))
+  out.append(('R5:IO', [md.rule('.*', 'INPUT', 'SRQ8a'),
+                        md.rule('.*', 'OUTPUT', 'SRQ8a')]))
   # single-op scoped rules: only that operator's tensors may get statistics
   for k, meta in enumerate(built.ops[0]):
     if md.supported(meta.type, 'SRQ8s'):
